@@ -3322,11 +3322,14 @@ impl Zeroconf {
                     continue;
                 }
 
-                add_answer_of_service(
+                // The host name may have been changed by conflict resolution on this interface.
+                let hostname = dns_registry.resolve_name(service.get_hostname());
+                add_answer_of_service_with_host(
                     &mut out,
                     &msg,
                     question.entry_name(),
                     service,
+                    hostname,
                     qtype,
                     intf_addrs,
                 );
@@ -4000,12 +4003,38 @@ impl Zeroconf {
     }
 }
 
-/// Adds one or more answers of a service for incoming msg and RR entry name.
+/// Adds one or more answers of a service for incoming msg and RR entry name,
+/// using the host name the service was registered with.
+#[cfg(test)]
 fn add_answer_of_service(
     out: &mut DnsOutgoing,
     msg: &DnsIncoming,
     entry_name: &str,
     service: &ServiceInfo,
+    qtype: RRType,
+    intf_addrs: Vec<IpAddr>,
+) {
+    add_answer_of_service_with_host(
+        out,
+        msg,
+        entry_name,
+        service,
+        service.get_hostname(),
+        qtype,
+        intf_addrs,
+    );
+}
+
+/// Adds one or more answers of a service for incoming msg and RR entry name.
+///
+/// `hostname` is the name the host of the service currently goes by, i.e. its
+/// registered host name unless that was changed by conflict resolution.
+fn add_answer_of_service_with_host(
+    out: &mut DnsOutgoing,
+    msg: &DnsIncoming,
+    entry_name: &str,
+    service: &ServiceInfo,
+    hostname: &str,
     qtype: RRType,
     intf_addrs: Vec<IpAddr>,
 ) {
@@ -4019,7 +4048,7 @@ fn add_answer_of_service(
                 service.get_priority(),
                 service.get_weight(),
                 service.get_port(),
-                service.get_hostname().to_string(),
+                hostname.to_string(),
             ),
         );
     }
@@ -4039,7 +4068,7 @@ fn add_answer_of_service(
     if qtype == RRType::SRV {
         for address in intf_addrs {
             out.add_additional_answer(DnsAddress::new(
-                service.get_hostname(),
+                hostname,
                 ip_address_rr_type(&address),
                 CLASS_IN | CLASS_CACHE_FLUSH,
                 service.get_host_ttl(),
